@@ -19,11 +19,11 @@ func ledgerDelta(p *Prog, w FieldWrite, field string) (kind string, operand ast.
 		return "other", nil
 	}
 	switch {
-	case p.IsCall(call, "resources.Add") && len(call.Args) == 2:
+	case p.IsCall(call, "resources.Add") && len(call.Args) >= 2:
 		if _, isF := p.fieldSel(call.Args[0], field); isF {
 			return "add", call.Args[1]
 		}
-	case (p.IsCall(call, "resources.Sub") || p.IsCall(call, "resources.SubErrorNegative")) && len(call.Args) == 2:
+	case (p.IsCall(call, "resources.Sub") || p.IsCall(call, "resources.SubErrorNegative")) && len(call.Args) >= 2:
 		if _, isF := p.fieldSel(call.Args[0], field); isF {
 			return "sub", call.Args[1]
 		}
@@ -117,7 +117,7 @@ func rulesC03(c *Ctx) {
 			}
 			isB := func(nn ast.Node) bool {
 				call, ok := nn.(*ast.CallExpr)
-				if !ok || !p.IsCall(call, want) || len(call.Args) != 1 {
+				if !ok || !p.IsCall(call, want) || len(call.Args) < 1 {
 					return false
 				}
 				if !p.recvField(w.Fn, Recv(call), "objects.Application.queue") {
@@ -138,7 +138,7 @@ func rulesC03(c *Ctx) {
 		rec := false
 		for _, call := range p.callsIn(fn, nm) {
 			st := p.StateAt(fn, call)
-			if p.recvField(fn, Recv(call), "objects.Queue.parent") && len(call.Args) == 1 && p.isParam(fn, call.Args[0], 0) &&
+			if p.recvField(fn, Recv(call), "objects.Queue.parent") && len(call.Args) >= 1 && p.isParam(fn, call.Args[0], 0) &&
 				p.Holds(st, p.NilAtom(false, func(t Term) bool { return p.recvField(fn, t.E, "objects.Queue.parent") })) {
 				rec = true
 			}
@@ -147,7 +147,7 @@ func rulesC03(c *Ctx) {
 		own := false
 		for _, w := range p.FieldWrites(p.Field("objects.Queue.pending")) {
 			if p.inFn(w.Fn, fn) {
-				if call, ok := unparen(w.Arg).(*ast.CallExpr); ok && len(call.Args) == 2 && p.recvField(fn, call.Args[0], "objects.Queue.pending") && p.isParam(fn, call.Args[1], 0) {
+				if call, ok := unparen(w.Arg).(*ast.CallExpr); ok && len(call.Args) >= 2 && p.recvField(fn, call.Args[0], "objects.Queue.pending") && p.isParam(fn, call.Args[1], 0) {
 					wantAdd := strings.HasSuffix(nm, "incPendingResource")
 					if wantAdd == p.IsCall(call, "resources.Add") && (wantAdd || p.IsCall(call, "resources.SubErrorNegative") || p.IsCall(call, "resources.Sub")) {
 						own = true
@@ -220,7 +220,7 @@ func rulesC03(c *Ctx) {
 			st := p.StateAt(fn, call)
 			ok := p.Holds(st, p.ResultNilAtom(false, nil, "objects.Application.RemoveAllocation"))
 			c.Check("C03.c", "queue released only for allocations the app really removed (node removal)", call, ok, "DecAllocatedResource without app.RemoveAllocation(...) != nil")
-			argOK := len(call.Args) == 1 && func() bool {
+			argOK := len(call.Args) >= 1 && func() bool {
 				cl, ok := unparen(call.Args[0]).(*ast.CallExpr)
 				return ok && p.IsCall(cl, fnGetAllocatedResource)
 			}()
